@@ -95,6 +95,7 @@ def build_leaf(
     else:
         if trees_dict is not None:
             tree, scope = trees_dict[len(scope)]
+            scope = [int(var) for var in scope]
             data_slice = data[part.row_ids][:, scope]
         else:
             tree, scope = None, part.col_ids.tolist()
